@@ -1,20 +1,38 @@
 import BpModel.All
 import BpModel.Spec
 import BpProofs.SpecCore
+import BpProofs.SpecPack
 /-
   C02 — wire interoperability with the reference protobuf implementation.
 
   The reference (`google.protobuf`) cannot be brought into Lean: it is the oracle of the
   differential part of the check.  What is proved here is that the MODEL OF THE DECODER
-  (`loadFields` + `foldFields`/`applyField`, i.e. `Message.load`) is insensitive to exactly
-  the re-encodings the property lists, for all schemas, all record lists / byte strings and
-  every loader of nested payloads (`rec`), by induction over record lists — no bounds.
+  (`loadFields` + `foldFields`/`applyField`, i.e. `load_fields` + the loop of `Message.load`)
+  is insensitive to exactly the re-encodings the property lists — for all schemas, all record
+  lists / byte strings, every starting state and every loader `rec` of nested payloads, by
+  induction over record lists; no bounds.
 
   "The decoded message" is `core st`: field values, oneof selection, presence — the state
-  without the raw bytes retained for unknown fields.
+  without the raw bytes retained for unknown fields.  Hypotheses are decidable predicates:
+  `Targets d pf idx f` (the record's number is declared by field `idx` = `f` of the class and
+  its wire type fits), `IsRepScalar f`, `WfState d st` (slot typing; holds for a fresh
+  instance, `wf_fresh`, and is kept by every decode step, `wf_step`).
 -/
 namespace Bp.C02
 open Bp Gen
+
+/-! ### the invariant the statements below assume holds on every path of the decoder -/
+
+/-- a fresh instance satisfies the slot typing invariant (for every class in which no
+    repeated field is also marked optional — true of every class generated from a .proto) -/
+theorem wf_fresh (d : MsgD) (hd : NoRepeatedOptional d) : WfState d (freshState d) := freshState_wf d hd
+
+/-- … and every record, known or unknown, well-typed or not, keeps it -/
+theorem wf_step (S : Schema) (rec : Loader) (d : MsgD) (pfs : List PField) (st st' : MState)
+    (hw : WfState d st) (h : foldFields S rec d st pfs = .ok st') : WfState d st' :=
+  foldFields_wf S rec d pfs st st' hw h
+
+/-! ### interleaved unknown fields -/
 
 /-- **interleaved unknown fields** — "… and interleaved unknown fields": two record lists
     whose known records (numbers the class declares, with a fitting wire type) are the
@@ -24,5 +42,101 @@ theorem load_unknown_interleave (S : Schema) (rec : Loader) (d : MsgD) (st : MSt
     (h : (pfs.filter fun pf => !isUnknownField d pf) = (pfs'.filter fun pf => !isUnknownField d pf)) :
     (foldFields S rec d st pfs).map core = (foldFields S rec d st pfs').map core := by
   rw [foldFields_core_filter, foldFields_core_filter S rec d pfs', h]
+
+/-! ### packed / unpacked repeated scalars, chunks -/
+
+/-- **packed or unpacked repeated scalars, a packed field split into several chunks, in any
+    mix**: for a repeated field of a packable scalar type, two non-empty runs of records —
+    each record a packed chunk (LEN) or a single unpacked element, in any combination —
+    that carry the same elements in the same order leave the SAME state, wherever the run
+    stands in the message (`before`, `after` arbitrary: other fields, unknown fields, further
+    records of the same field). -/
+theorem load_pack_mix (S : Schema) (rec : Loader) (d : MsgD) (idx : Nat) (f : FieldD) (hr : IsRepScalar f)
+    (before after run run' : List PField) (st : MState) (hw : WfState d st)
+    (hne : run ≠ []) (hne' : run' ≠ [])
+    (hall : ∀ pf ∈ run, Targets d pf idx f) (hall' : ∀ pf ∈ run', Targets d pf idx f)
+    (es : List Val) (he : elemsOfRecs S rec f run = .ok es) (he' : elemsOfRecs S rec f run' = .ok es) :
+    foldFields S rec d st (before ++ run ++ after) = foldFields S rec d st (before ++ run' ++ after) := by
+  rw [List.append_assoc, List.append_assoc, foldFields_append, foldFields_append S rec d before]
+  cases hb : foldFields S rec d st before with
+  | error e => rfl
+  | ok s1 =>
+    simp only [bind_ok]
+    have hw1 := foldFields_wf S rec d before st s1 hw hb
+    rw [foldFields_append, foldFields_append S rec d run',
+      foldFields_repeated S rec d idx f hr run hne hall s1 hw1 es he,
+      foldFields_repeated S rec d idx f hr run' hne' hall' s1 hw1 es he']
+
+/-- what the list is afterwards: the old elements followed by the run's elements -/
+theorem load_pack_value (S : Schema) (rec : Loader) (d : MsgD) (idx : Nat) (f : FieldD) (hr : IsRepScalar f)
+    (run : List PField) (st : MState) (hw : WfState d st) (hne : run ≠ [])
+    (hall : ∀ pf ∈ run, Targets d pf idx f) (es : List Val) (he : elemsOfRecs S rec f run = .ok es) :
+    ∃ st', foldFields S rec d st run = .ok st' ∧ st'.slots.getD idx .ph = .list (curList st idx ++ es) := by
+  refine ⟨_, foldFields_repeated S rec d idx f hr run hne hall st hw es he, ?_⟩
+  have hl := idx_lt_of_wf d st idx f (hall _ (List.getLast_mem hne)).2.1 hw
+  simp only [appendAt]
+  rw [setAt_getD]; simp [hl]
+
+/-! ### repeated occurrences of a singular scalar / of oneof members: the last one wins -/
+
+/-- **repeated occurrences of a singular scalar (last one wins)**: whatever records came
+    before — earlier occurrences of the same field with other values included — after a
+    record of a singular scalar field the field holds exactly that record's value. -/
+theorem load_last_wins (S : Schema) (rec : Loader) (d : MsgD) (st st' : MState) (earlier : List PField)
+    (pf : PField) (idx : Nat) (f : FieldD) (v : Val) (hw : WfState d st)
+    (ht : Targets d pf idx f) (hrep : f.repeated = false) (hm : f.ty ≠ .map) (hmsg : f.ty ≠ .message)
+    (hv : decodeValue S rec f pf = .ok v)
+    (h : foldFields S rec d st (earlier ++ [pf]) = .ok st') : st'.slots.getD idx .ph = v := by
+  rw [foldFields_append] at h
+  cases hb : foldFields S rec d st earlier with
+  | error e => rw [hb] at h; simp at h
+  | ok s1 =>
+    rw [hb] at h; simp only [bind_ok, foldFields] at h
+    cases ha : applyField S rec d s1 pf with
+    | error e => rw [ha] at h; simp at h
+    | ok s2 =>
+      rw [ha] at h; simp only [bind_ok] at h
+      injection h with h; subst h
+      exact applyField_singular S rec d s1 s2 pf idx f v ht hrep hm hmsg
+        (foldFields_wf S rec d earlier st s1 hw hb) hv ha
+
+/-- **repeated occurrences of oneof members (last one wins)**: whatever records came before
+    — other members of the group, or the same member — after a record of member `idx` of
+    group `g` that member is the selected one, and every other member of the group is unset
+    (PLACEHOLDER, or None for an optional member), so reading it raises AttributeError and it
+    is not re-encoded.  Scalar or message member alike. -/
+theorem load_last_wins_oneof (S : Schema) (rec : Loader) (d : MsgD) (st st' : MState) (earlier : List PField)
+    (pf : PField) (idx : Nat) (f : FieldD) (g : Nat)
+    (hwg : WfGroups d.fields d.nGroups) (hinv : Inv d.fields d.nGroups st)
+    (ht : Targets d pf idx f) (hg : f.group = some g)
+    (h : foldFields S rec d st (earlier ++ [pf]) = .ok st') :
+    st'.cur.getD g Option.none = some idx
+    ∧ ∀ j fj, d.fields[j]? = some fj → fj.group = some g → j ≠ idx → SentinelAt fj (st'.slots.getD j .ph) := by
+  have hinv' := foldFields_inv S rec d d.nGroups _ st st' hwg hinv h
+  rw [foldFields_append] at h
+  cases hb : foldFields S rec d st earlier with
+  | error e => rw [hb] at h; simp at h
+  | ok s1 =>
+    rw [hb] at h; simp only [bind_ok, foldFields] at h
+    cases ha : applyField S rec d s1 pf with
+    | error e => rw [ha] at h; simp at h
+    | ok s2 =>
+      rw [ha] at h; simp only [bind_ok] at h
+      injection h with h; subst h
+      have hgn : g < d.nGroups := hwg f (List.mem_of_getElem? ht.2.1) g hg
+      have hl : g < s1.cur.length := by
+        rw [(foldFields_lengths S rec d earlier st s1 hb).2, hinv.1]; exact hgn
+      have hsel := applyField_selects S rec d s1 s2 pf idx f g ht hg hl ha
+      refine ⟨hsel, ?_⟩
+      intro j fj hfj hgj hne
+      exact hinv'.2 j fj g hfj hgj (by rw [hsel]; intro e; injection e with e; exact hne e.symm)
+
+/-- the value part for scalar members of a oneof -/
+theorem load_last_wins_oneof_value (S : Schema) (rec : Loader) (d : MsgD) (st st' : MState) (earlier : List PField)
+    (pf : PField) (idx : Nat) (f : FieldD) (v : Val) (hw : WfState d st)
+    (ht : Targets d pf idx f) (hrep : f.repeated = false) (hm : f.ty ≠ .map) (hmsg : f.ty ≠ .message)
+    (hv : decodeValue S rec f pf = .ok v)
+    (h : foldFields S rec d st (earlier ++ [pf]) = .ok st') : st'.slots.getD idx .ph = v :=
+  load_last_wins S rec d st st' earlier pf idx f v hw ht hrep hm hmsg hv h
 
 end Bp.C02
